@@ -1,4 +1,6 @@
 import TypifyModel.Model.StrConv
+import TypifyModel.Model.Render
+import TypifyModel.Generated.Derives
 import TypifyModel.Driver.IrJson
 import TypifyModel.Driver.Regex
 /-! `drv_ir`: model side of the M3 correspondence. Lines:
@@ -12,6 +14,7 @@ def ext : Ext := { regex := fun p s => (Regex.find? p s).getD false }
 structure Case where
   space : Space
   badPattern : Bool      -- some pattern is outside the matcher's subset
+  settings : Render.Settings := {}
 
 structure St where
   cases : List (String × Case) := []
@@ -98,12 +101,58 @@ def evalOp (c : Case) (op tyName payload : String) : String :=
          | .ok w => "ok " ++ renderJson w)
     | _ => "unsupported"
 
+def jstrs (j : Option Json) : List String :=
+  ((j.bind jarr?).getD []).filterMap jstr?
+
+def parseSettings (top dump : Json) : Render.Settings :=
+  let s := (jget top "settings").getD (.obj [])
+  { extraDerives := jstrs (jget s "derives")
+    structBuilder := ((jget s "struct_builder").bind jbool?).getD false
+    mapType := ((jget s "map_type").bind jstr?).getD "::std::collections::HashMap"
+    sharedDefaults := jstrs (jget dump "defaults") }
+
+open Render in
+def fieldJson (f : FieldS) : Json :=
+  .obj [("name", .str f.name), ("pub", .bool f.isPub), ("serde", .arr (f.serde.map .str)), ("ty", .str f.ty)]
+
+open Render in
+def summaryJson (s : Summary) : Json :=
+  let arms (o : Option (List (String × String))) : List (String × Json) → List (String × Json) := fun acc =>
+    acc
+  let item (i : ItemS) : Json :=
+    let base : List (String × Json) := [
+      ("derives", .arr (i.derives.map .str)),
+      ("fields", .arr (i.fields.map fieldJson)),
+      ("impls", .arr ((toSet (i.impls.map (ImplK.render i.name))).map .str)),
+      ("kind", .str i.kind), ("name", .str i.name), ("pub", .bool i.isPub),
+      ("serde", .arr (i.serde.map .str)),
+      ("variants", .arr (i.variants.map fun v => .obj [
+        ("fields", .arr (v.fields.map fieldJson)), ("kind", .str v.kind), ("name", .str v.name),
+        ("serde", .arr (v.serde.map .str)), ("tys", .arr (v.tys.map .str))]))]
+    let d := match i.displayArms with
+      | some l => [("display_arms", Json.arr (l.map fun (a, b) => .arr [.str a, .str b]))] | none => []
+    let f := match i.fromstrArms with
+      | some l => [("fromstr_arms", Json.arr (l.map fun (a, b) => .arr [.str a, .str b]))] | none => []
+    let _ := arms
+    .obj (Json.sortObj (base ++ d ++ f))
+  .obj [("builders", .arr (s.builders.map .str)), ("default_fns", .arr (s.defaultFns.map .str)),
+        ("items", .arr (s.items.map item))]
+
 def step (st : St) (line : String) : St × String :=
   match splitN line 2 with
-  | ["ir", case, dump] =>
-    (match (parseJson dump).bind parseSpace with
-     | some σ => ({ cases := (case, ⟨σ, !patternsOk σ⟩) :: st.cases }, "ok")
-     | none => (st, "bad-ir"))
+  | ["ir", case, text] =>
+    (match parseJson text with
+     | none => (st, "bad-ir")
+     | some top =>
+       let dump := (jget top "dump").getD top
+       match parseSpace dump with
+       | some σ => ({ cases := (case, ⟨σ, !patternsOk σ, parseSettings top dump⟩) :: st.cases }, "ok")
+       | none => (st, "bad-ir"))
+  | ["render", case] =>
+    (match st.cases.find? (fun c => c.1 == case) with
+     | some (_, c) =>
+       (st, renderJson (summaryJson (Render.render Generated.deriveTables c.settings c.space)))
+     | none => (st, "no-case"))
   | _ =>
     match splitN line 3 with
     | [op, case, ty, payload] =>
